@@ -130,6 +130,15 @@ func init() {
 			return nil, true
 		}
 		c.s.addPC(cond)
+		// remember "term = literal" facts so that the same uninterpreted application later folds to the literal
+		if strings.HasPrefix(cond, "(= ") && strings.HasSuffix(cond, "\")") {
+			if args := splitArgs(cond[3 : len(cond)-1]); len(args) == 2 && strings.HasPrefix(args[1], "\"") && strings.HasPrefix(args[0], "(uf_") {
+				if c.s.EqLits == nil {
+					c.s.EqLits = map[string]string{}
+				}
+				c.s.EqLits[args[0]] = parseSMTString(args[1])
+			}
+		}
 		return nil, false
 	})
 	reg("Assert", func(c *icall) ([]*State, bool) {
@@ -335,6 +344,9 @@ func (w *Worker) applyUF(s *State, name string, args []Value, sort, rk string) s
 		t = "(" + fname + " " + strings.Join(terms, " ") + ")"
 	}
 	s.UF = append(s.UF, UFApp{Name: name, Args: terms, Kind: kinds, Res: t, RK: rk})
+	if lit, ok := s.EqLits[t]; ok && sort == "String" {
+		return smtStrLit(lit)
+	}
 	return t
 }
 
